@@ -1,11 +1,11 @@
-SPECIFICATION Spec
+SPECIFICATION SpecDump
 CONSTANTS
   MCCat <- CatCustom
   MCSub <- SubCustom
   RootClasses <- RootsCustom
   FilterStrs <- FilterCustom
   AssignSpecs <- AssignCustom
-  MaxSteps = 2
+  MaxSteps = 3
   DirectCalls = TRUE
 CONSTRAINT Bound
 ACTION_CONSTRAINT Dump
